@@ -35,8 +35,8 @@ def _line_event(code, line):
     if s is None:
         return None
     w = s.by_ident.get(threading.get_ident())
-    if w is None or w.state != 'running':
-        return None
+    if w is None or w.state != 'running' or s.abort:
+        return None          # (while a run is being abandoned the workers unwind without parking)
     w.park(sys._getframe(1))
     return None
 
@@ -204,6 +204,8 @@ class Worker:
 
     def park(self, frame):
         sched = self.sched
+        if sched.abort:
+            raise _Abort()
         self.frame = frame
         self.state = 'parked'
         sched.back.release()
@@ -215,7 +217,7 @@ class Worker:
     def _trace(self, frame, event, arg):
         if event == 'call':
             return self._trace if self.sched.is_traced(frame.f_code) else None
-        if event == 'line':
+        if event == 'line' and not self.sched.abort:
             self.park(frame)
         return self._trace
 
@@ -282,6 +284,7 @@ class Scheduler:
             w.thread.start()
         schedule, trace = [], []
         deadlock = False
+        blocked = []
         cur = None
         try:
             if observe is not None:
@@ -293,6 +296,7 @@ class Scheduler:
                 enabled = [w.idx for w in unfinished if not self.blocked(w)]
                 if not enabled:
                     deadlock = True
+                    blocked = [(w.idx, w.blocked_on.name, f'held by {w.blocked_on.owner}') for w in unfinished]
                     break
                 t = chooser(len(schedule), cur if cur in enabled else None, enabled)
                 if t not in enabled:
@@ -312,7 +316,7 @@ class Scheduler:
             self._cleanup()
         return dict(schedule=schedule, trace=trace, deadlock=deadlock,
                     results=[w.result for w in self.workers], excs=[w.exc for w in self.workers],
-                    blocked=[(w.idx, w.blocked_on.name) for w in self.workers if w.blocked_on is not None])
+                    blocked=blocked)
 
     def _cleanup(self):
         global _CURRENT
